@@ -49,13 +49,14 @@ def run(ck):
     s1 = rows(ck.tlc("hls", "MCHls", "HlsSim.cfg", workers=1, simulate="num=%d" % n, depth=51, seed=ck.seed, timeout=900, label="random walks, fragment 2 s, memory"), 2, True)
     s2 = rows(ck.tlc("hls", "MCHls", "HlsSimDisk.cfg", workers=1, simulate="num=%d" % n, depth=51, seed=ck.seed + 1, timeout=900, label="random walks, fragment 1 s, disk"), 1, False)
     s3 = rows(ck.tlc("hls", "MCHls", "HlsSimSrv.cfg", workers=1, simulate="num=%d" % (3 if q else 30), depth=61, seed=ck.seed + 2, timeout=900, label="random walks, fragment 5 s (server level)"), 5, None)
+    s0 = rows(ck.tlc("hls", "MCHls", "HlsSimFrag0.cfg", workers=1, simulate="num=%d" % (6 if q else 40), depth=51, seed=ck.seed + 3, timeout=900, label="random walks, fragment 0 (package API only): sub-100 ms fragments dropped, numbers reused"), 0, None)
     if len(edges) < 300 or len(s1) < 20 or len(s2) < 20 or len(s3) < 10:
         raise Infra("generation produced %d/%d/%d/%d behaviours" % (len(edges), len(s1), len(s2), len(s3)))
     rnd = random.Random(ck.seed)
     if q:
         rnd.shuffle(edges_disk)
         edges_disk = edges_disk[:150]
-    pk = edges + edges_disk + s1 + s2 + s3
+    pk = edges + edges_disk + s1 + s2 + s3 + s0
     # ---- package level -----------------------------------------------------------------------------------------
     tr = os.path.join(ck.tmp, "c10.ndjson")
     o2 = os.path.join(ck.tmp, "c10_out.json")
@@ -81,7 +82,7 @@ def run(ck):
             raise Infra("trace validation consumed %d of %d" % (rt.distinct - 1, n_))
         bad += rt.printed("@BAD")
     ck.cov["traces_validated_against_impl"] += res["behaviours"] + res3["behaviours"]
-    ck.cov["behaviours"] = {"class_cover": len(edges), "class_cover_disk": len(edges_disk), "walks_memory": len(s1), "walks_disk": len(s2), "walks_server": len(s3) * reps}
+    ck.cov["behaviours"] = {"class_cover": len(edges), "class_cover_disk": len(edges_disk), "walks_memory": len(s1), "walks_disk": len(s2), "walks_server": len(s3) * reps, "walks_fragment0": len(s0)}
     ck.cov["observations"] = {"records": nrec, "playlists": res["lists"] + res3["lists"], "late_reads": res["reads"], "http_segments": res3["fetched"]}
     ck.cov["model_drift"] = len(res["drift"] or [])
     ck.cov["exhaustive"] = False
@@ -103,6 +104,7 @@ def run(ck):
                        "input assumption: a non-key video frame follows the previous video frame within two fragment lengths (video restarts with a key frame after an audio-only gap); time stamps never go backwards",
                        "audio PTS inside HLS segments is compared with a 100 ms tolerance: hlsAacJitter re-stamps AAC on purpose",
                        "freshness of the window is a verdict in disk mode (the open file's number is visible) and at quiescence over HTTP; in memory mode it is covered by the model-drift comparison only",
+                       "fragment length 0 is outside the configuration space (config clamps hlsfragment to >= 5) but reachable through the package API: there the exactly-once clause is relaxed to 'no duplicate, no reordering, no loss inside a segment', because dropping sub-100 ms fragments with their frames is the documented mechanism",
                        "stream replacement while a disk-mode stream of the same path still owns files with the same names is not exercised"]
 
 
